@@ -75,6 +75,11 @@ def _shapes(v, rng, tier, mode):
     nrand = 1 if tier == "quick" else 3
     if mode == "asan":
         nrand = 1
+    if mode == "audit":
+        # one long axis (34..70 cells) with thin other axes: slab/blocking thresholds inside wrappers (seams at 32, 64, ...)
+        s = [int(x) for x in rng.integers(lo + 1, lo + 4, size=d)]
+        s[int(rng.integers(d))] = int(rng.integers(34, 71))
+        out.append(("long-axis", tuple(s)))
     for _ in range(nrand):
         hi = (lo + 9) if d == 2 else (lo + 6)
         s = util.shape2d(rng, lo + 1, hi) if d == 2 else util.shape3d(rng, lo + 1, hi)
